@@ -162,6 +162,23 @@ reg('C14', 'E2',
     'Trusted: libsbml reader, vf/ref/sbml_eval.py. Known findings are matched by exact class (family, export kind, failing identifier / '
     'recognised defective form); any other mismatch of the same family is still a violation.', '4 C14')
 
+reg('C08', 'E3',
+    'exhaustive enumeration of operation histories on the real Model with a shadow definition; differential oracle vs a freshly built model',
+    'Every sequence up to the length bound over a 19-letter alphabet of edits, initialisations, interface constructions, simulations in '
+    'every mode and seedings is applied to a real Model; the state reached is compared, through seeded and scripted simulations in every '
+    'mode, the deterministic trajectory, dictionaries and matrices, with a model built at once from the shadow definition; seeded '
+    'repetition and model-unchanged-by-simulation are checked at every step. Histories are not merged because the hidden C-level vectors '
+    'are what is under test.',
+    'Trusted: the shadow definition kept by the harness. Bounded by history length (3 quick, 4 + a length-5 sub-alphabet thorough).', '4 C08')
+reg('C17', 'E2+E3',
+    'bounded-exhaustive enumeration of member types x copy/initialise/simulate/edit histories on real models, results and cell states',
+    'One model per propensity / expression-node / delay / rule type and per lineage rule / event / splitter type is taken through every '
+    'history up to the length bound that contains a pickle round trip or deep copy, and compared observationally (dictionaries, matrices, '
+    'rate forms via H2, delays under a scripted stream, rules, seeded simulations in every mode, seeded and scripted lineages with their '
+    'tree structure) with the same history without copies; independence is checked by editing either side; every result / cell-state / '
+    'lineage class is pickled and deep-copied.',
+    'Trusted: observation through the public API and hooks H1/H2. Interfaces are not part of the claim.', '4 C17')
+
 def hook_commits():
     try:
         out = subprocess.run(['git', '-C', '/repo', 'log', '--format=%h %s'], stdout=subprocess.PIPE).stdout.decode()
